@@ -154,6 +154,12 @@ impl Client {
     fn definition(&mut self, name: &str, line: u32, character: u32) -> Result<J, String> {
         self.request("textDocument/definition", json!({"textDocument": {"uri": Self::uri(name)}, "position": {"line": line, "character": character}}))
     }
+    fn completion(&mut self, name: &str, line: u32, character: u32) -> Result<J, String> {
+        self.request("textDocument/completion", json!({"textDocument": {"uri": Self::uri(name)}, "position": {"line": line, "character": character}}))
+    }
+    fn hover(&mut self, name: &str, line: u32, character: u32) -> Result<J, String> {
+        self.request("textDocument/hover", json!({"textDocument": {"uri": Self::uri(name)}, "position": {"line": line, "character": character}}))
+    }
     fn shutdown(mut self) -> bool {
         let ok = self.request("shutdown", J::Null).is_ok();
         self.notify("exit", J::Null);
@@ -197,6 +203,10 @@ struct Doc {
     bindings: Vec<Binding>,
     uses: Vec<UseSite>,
     crlf: bool,
+    /// Lines of the library file the document loads from (empty = no load statement).
+    lib_lines: Vec<String>,
+    /// (local name in the document, exported name in lib.star, line in lib.star, byte column there, tag)
+    loaded: Vec<(String, String, usize, usize, String)>,
 }
 
 const NAMES: &[&str] = &["a", "b", "c"];
@@ -338,6 +348,10 @@ impl<'a, 'c> DG<'a, 'c> {
         }
         sig.push_str("):");
         self.push_line(sig);
+        if self.ch.chance(1, 2) {
+            let d = *self.ch.pick(&["Doc é.", "名前 😀 doc.", "plain doc"]);
+            self.push_line(format!("{pad}    \"\"\"{d}\"\"\""));
+        }
         // names visible inside: parameters, then whatever the outer scopes define (read through closures)
         let mut visible = params.clone();
         for v in outer_visible.iter() {
@@ -385,8 +399,31 @@ impl<'a, 'c> DG<'a, 'c> {
 
 fn gen_doc(ch: &mut Choices) -> Doc {
     let crlf = ch.chance(1, 4);
-    let mut g = DG { ch, doc: Doc { lines: Vec::new(), bindings: Vec::new(), uses: Vec::new(), crlf }, next_scope: 0, next_key: 0, next_tag: 0 };
+    let mut g = DG { ch, doc: Doc { lines: Vec::new(), bindings: Vec::new(), uses: Vec::new(), crlf, lib_lines: Vec::new(), loaded: Vec::new() }, next_scope: 0, next_key: 0, next_tag: 0 };
     let mut visible: Vec<String> = Vec::new();
+    // optional load statement: names la/lb come from lib.star (exported there as ea/eb, possibly after non-ASCII text)
+    if g.ch.chance(1, 2) {
+        let mut args = Vec::new();
+        for (local, exported) in [("la", "ea"), ("lb", "eb")] {
+            if g.ch.chance(2, 3) {
+                let pre = g.decor();
+                let tag = format!("{exported}@slib#{}", g.doc.lib_lines.len());
+                if g.ch.chance(1, 3) {
+                    g.doc.lib_lines.push(format!("# {}", g.ch.pick_s(&["é", "😀 名", "lib"])));
+                }
+                g.doc.lib_lines.push(format!("{pre}{exported} = \"{tag}\""));
+                let aliased = g.ch.bool();
+                let local_name = if aliased { local } else { exported };
+                args.push(if aliased { format!("{local} = \"{exported}\"") } else { format!("\"{exported}\"") });
+                g.doc.loaded.push((local_name.to_owned(), exported.to_owned(), g.doc.lib_lines.len() - 1, pre.len(), tag));
+                visible.push(local_name.to_owned());
+            }
+        }
+        if !args.is_empty() {
+            let t = g.trailing();
+            g.push_line(format!("load(\"lib.star\", {}){t}", args.join(", ")));
+        }
+    }
     // module level binds every name first so that closures always find something
     for n in NAMES {
         if g.ch.chance(2, 3) {
@@ -403,6 +440,141 @@ impl Doc {
         let nl = if self.crlf { "\r\n" } else { "\n" };
         self.lines.iter().map(|l| format!("{l}{nl}")).collect()
     }
+    fn lib_text(&self) -> String {
+        let nl = if self.crlf { "\r\n" } else { "\n" };
+        self.lib_lines.iter().map(|l| format!("{l}{nl}")).collect()
+    }
+}
+
+/// Every `{start: {line, character}, end: {..}}` object inside a JSON answer.
+fn collect_ranges(j: &J, out: &mut Vec<J>) {
+    match j {
+        J::Object(m) => {
+            if m.get("start").map(|s| s.get("line").is_some()).unwrap_or(false) && m.get("end").map(|s| s.get("line").is_some()).unwrap_or(false) {
+                out.push(j.clone());
+            }
+            for v in m.values() {
+                collect_ranges(v, out);
+            }
+        }
+        J::Array(a) => {
+            for v in a {
+                collect_ranges(v, out);
+            }
+        }
+        _ => {}
+    }
+}
+
+/// Independent line/character computation (lines end at \n; columns count characters).
+fn line_col(text: &str, off: usize) -> (usize, usize) {
+    let line = text[..off].matches('\n').count();
+    let line_start = text[..off].rfind('\n').map(|i| i + 1).unwrap_or(0);
+    (line, text[line_start..off].chars().count())
+}
+
+/// Property clause 4 over a whole tree: for every node span of the parsed document, CodeMap::resolve_span must equal
+/// the independent computation; and for a run-time error (with its call stack) raised on lines holding non-ASCII text.
+fn check_tree_and_runtime_spans(text: &str, r: &mut CaseResult) {
+    let Ok(ast) = AstModule::parse("doc.star", text.to_owned(), &Dialect::AllOptionsInternal) else { return };
+    let cm = {
+        use starlark_syntax::syntax::module::AstModuleFields;
+        ast.codemap().clone()
+    };
+    let mut w = crate::astx::Walk::new(text, true, false);
+    {
+        use starlark_syntax::syntax::module::AstModuleFields;
+        w.module(ast.statement());
+    }
+    let out = std::mem::take(&mut w.out);
+    let mut seen = std::collections::HashSet::new();
+    for (i, _) in out.match_indices('@') {
+        let rest = &out[i + 1..];
+        let end = rest.find(|c: char| !(c.is_ascii_digit() || c == '-')).unwrap_or(rest.len());
+        let Some((b, e)) = rest[..end].split_once('-') else { continue };
+        let (Ok(b), Ok(e)) = (b.parse::<u32>(), e.parse::<u32>()) else { continue };
+        if !seen.insert((b, e)) || e as usize > text.len() || !text.is_char_boundary(b as usize) || !text.is_char_boundary(e as usize) || b > e {
+            continue;
+        }
+        let sp = starlark::codemap::Span::new(starlark::codemap::Pos::new(b), starlark::codemap::Pos::new(e));
+        let rs = cm.resolve_span(sp);
+        r.evals += 1;
+        let want = (line_col(text, b as usize), line_col(text, e as usize));
+        let got = ((rs.begin.line, rs.begin.column), (rs.end.line, rs.end.column));
+        if want != got {
+            r.fail("resolved-span-mismatch", format!("node span {b}..{e} ({:?}): CodeMap::resolve_span says {got:?}, the text says {want:?}\n{text}", truncate(&text[b as usize..e as usize], 40)));
+            return;
+        }
+        let fs = cm.file_span(sp);
+        let l = fs.resolve_span();
+        if ((l.begin.line, l.begin.column), (l.end.line, l.end.column)) != want {
+            r.fail("resolved-span-mismatch", format!("node span {b}..{e}: FileSpan::resolve_span disagrees with the text\n{text}"));
+            return;
+        }
+        // source_line / source_span consistency
+        if want.0.0 == want.1.0 && cm.source_span(sp) != &text[b as usize..e as usize] {
+            r.fail("resolved-span-mismatch", format!("node span {b}..{e}: source_span returns different text"));
+            return;
+        }
+    }
+}
+
+fn check_runtime_error_positions(text: &str, lib: Option<&starlark::environment::FrozenModule>, r: &mut CaseResult) {
+    // a failing call chain whose frames sit on lines that hold non-ASCII text before the call
+    let nl = if text.contains("\r\n") { "\r\n" } else { "\n" };
+    let tail = format!("def _boom(x):{nl}    _d = \"é😀\"; return [][x]{nl}def _mid(x):{nl}    _d = \"名\"; return _boom(x){nl}_d = \"😀é\"; _z = _mid(3){nl}");
+    let full = format!("{text}{tail}");
+    let ast = match AstModule::parse("doc.star", full.clone(), &Dialect::AllOptionsInternal) {
+        Ok(a) => a,
+        Err(_) => return,
+    };
+    starlark::environment::Module::with_temp_heap(|module| {
+        let mut map: HashMap<&str, &starlark::environment::FrozenModule> = HashMap::new();
+        if let Some(l) = lib {
+            map.insert("lib.star", l);
+        }
+        let loader = starlark::eval::ReturnFileLoader { modules: &map };
+        let mut eval = starlark::eval::Evaluator::new(&module);
+        eval.set_loader(&loader);
+        let Err(e) = eval.eval_module(ast, sl::globals()) else {
+            r.fail("generator-bug", "runtime-error tail did not fail".into());
+            return;
+        };
+        let mut spans: Vec<(String, starlark::codemap::FileSpan)> = Vec::new();
+        if let Some(s) = e.span() {
+            spans.push(("error span".into(), s.clone()));
+        }
+        { let cs = e.call_stack();
+            for f in &cs.frames {
+                if let Some(l) = &f.location {
+                    spans.push((format!("frame {}", f.name), l.clone()));
+                }
+            }
+        }
+        if spans.len() < 3 {
+            r.fail("error-position-missing", format!("expected an error span and two located frames, got {}", spans.len()));
+        }
+        for (what, fs) in spans {
+            let (b, en) = (fs.span.begin().get() as usize, fs.span.end().get() as usize);
+            if fs.filename() != "doc.star" || en > full.len() || !full.is_char_boundary(b) || !full.is_char_boundary(en) {
+                r.fail("error-position-invalid", format!("{what}: span {b}..{en} of {} is not a valid range of the evaluated file", fs.filename()));
+                continue;
+            }
+            let rs = fs.resolve_span();
+            r.evals += 1;
+            let want = (line_col(&full, b), line_col(&full, en));
+            let got = ((rs.begin.line, rs.begin.column), (rs.end.line, rs.end.column));
+            if want != got {
+                r.fail("resolved-span-mismatch", format!("{what} at bytes {b}..{en}: resolve_span says {got:?}, the text says {want:?}\n{full}"));
+            }
+            // the rendered location `file:line:col` (1-based) must agree as well
+            let shown = format!("{fs}");
+            let expect_prefix = format!("doc.star:{}:{}", want.0.0 + 1, want.0.1 + 1);
+            if !shown.starts_with(&expect_prefix) {
+                r.fail("resolved-span-mismatch", format!("{what}: rendered location {shown:?} does not start with {expect_prefix:?}"));
+            }
+        }
+    });
 }
 
 fn utf16_col(line: &str, byte_col: usize) -> u32 {
@@ -493,7 +665,14 @@ impl Prop for C19 {
         let mut r = CaseResult::new(text.clone());
         r.evals = 0;
         // ground truth: which binding does the running program read at each use?
-        let out = sl::run_src("doc.star", &text, &sl::RunCfg::default(), &[]);
+        let lib_text = doc.lib_text();
+        let lib_frozen = if doc.loaded.is_empty() { None } else { sl::run_and_freeze("lib.star", &lib_text, &sl::RunCfg::default(), &[]).1 };
+        if !doc.loaded.is_empty() && lib_frozen.is_none() {
+            r.fail("generator-bug", format!("library does not evaluate:\n{lib_text}"));
+            return r;
+        }
+        let loads: Vec<(&str, &starlark::environment::FrozenModule)> = lib_frozen.iter().map(|f| ("lib.star", f)).collect();
+        let out = sl::run_src("doc.star", &text, &sl::RunCfg::default(), &loads);
         if let Err(e) = &out.result {
             r.fail("generator-bug", format!("document does not evaluate: {}\n{text}", e.msg));
             return r;
@@ -514,9 +693,19 @@ impl Prop for C19 {
                 return r;
             }
         };
+        if !doc.loaded.is_empty() {
+            // the library is either an open document or only known to the context ("on disk")
+            if ch.bool() {
+                c.open("lib.star", &lib_text);
+            } else {
+                c.files.write().unwrap().insert(PathBuf::from("/ws/lib.star"), lib_text.clone());
+            }
+            r.label("has_load");
+        }
         c.open("doc.star", &text);
         let mut probs: Vec<(String, String)> = Vec::new();
         let lines = &doc.lines;
+        let any_astral = text.chars().any(|c| (c as u32) > 0xFFFF);
         for u in &doc.uses {
             let col16 = utf16_col(&lines[u.line], u.byte_col);
             let resp = match c.definition("doc.star", u.line as u32, col16) {
@@ -554,6 +743,36 @@ impl Prop for C19 {
             }
             for loc in &locs {
                 let (uri, range) = if loc.get("targetUri").is_some() { (loc["targetUri"].as_str().unwrap_or(""), &loc["targetSelectionRange"]) } else { (loc["uri"].as_str().unwrap_or(""), &loc["range"]) };
+                if tag.contains("@slib#") {
+                    // the program read a loaded value: the answer must be the exporting module's binding of the exported
+                    // name, or the load statement of this document
+                    r.label("loaded_use");
+                    let Some(ld) = doc.loaded.iter().find(|l| l.0 == u.name) else { continue };
+                    if uri == Client::uri("lib.star") {
+                        let mut rp = Vec::new();
+                        check_range(&lib_text, range, "definition range in lib.star", &mut rp);
+                        let lib_astral = doc.lib_lines.get(ld.2).map(|l| l.chars().any(|c| (c as u32) > 0xFFFF)).unwrap_or(false);
+                        let want = (ld.2 as u64, utf16_col(&doc.lib_lines[ld.2], ld.3) as u64);
+                        let got = (range["start"]["line"].as_u64().unwrap_or(u64::MAX), range["start"]["character"].as_u64().unwrap_or(u64::MAX));
+                        let bad = !rp.is_empty() || want != got || range_text(&lib_text, range).as_deref() != Some(ld.1.as_str());
+                        if bad {
+                            let class = if non_ascii_before { "lsp-cursor-column-non-ascii" } else if lib_astral { "lsp-range-char-columns" } else { "definition-loaded-wrong" };
+                            probs.push((class.into(), format!("use #{} of loaded `{}` (exported as `{}` at lib.star {}:{}): go-to-definition leads to lib.star {}:{} covering {:?} {:?}\nlib.star:\n{lib_text}", u.key, u.name, ld.1, want.0, want.1, got.0, got.1, range_text(&lib_text, range), rp)));
+                        }
+                    } else if uri == Client::uri("doc.star") {
+                        let mut rp = Vec::new();
+                        check_range(&text, range, "definition range", &mut rp);
+                        let gl = range["start"]["line"].as_u64().unwrap_or(u64::MAX) as usize;
+                        let on_load = lines.get(gl).map(|l| l.starts_with("load(")).unwrap_or(false);
+                        if !rp.is_empty() || !on_load {
+                            let class = if non_ascii_before { "lsp-cursor-column-non-ascii" } else { "definition-loaded-wrong" };
+                            probs.push((class.into(), format!("use #{} of loaded `{}`: go-to-definition leads to doc.star line {} which is not the load statement {:?}", u.key, u.name, gl + 1, rp)));
+                        }
+                    } else {
+                        probs.push(("definition-wrong-target".into(), format!("use #{} of loaded `{}`: definition points into {uri}", u.key, u.name)));
+                    }
+                    continue;
+                }
                 if uri != Client::uri("doc.star") {
                     probs.push(("definition-wrong-target".into(), format!("use #{} of `{}`: definition points into {uri}", u.key, u.name)));
                     continue;
@@ -596,6 +815,70 @@ impl Prop for C19 {
                 }
             }
         }
+        // completion and hover at use sites (and just after the identifier): answered; every range valid for this document
+        let mut extra_positions: Vec<(u32, u32)> = Vec::new();
+        for u in doc.uses.iter().take(6) {
+            let col16 = utf16_col(&lines[u.line], u.byte_col);
+            extra_positions.push((u.line as u32, col16));
+            extra_positions.push((u.line as u32, col16 + 1));
+        }
+        // inside the load statement (load path / load symbol completion) and inside call parentheses (parameter completion)
+        for (i, l) in lines.iter().enumerate() {
+            if l.starts_with("load(") {
+                extra_positions.push((i as u32, 7));
+                extra_positions.push((i as u32, utf16_col(l, l.find(", ").map(|x| x + 3).unwrap_or(0))));
+            }
+            if extra_positions.len() < 24 {
+                if let Some(pos) = l.find("()") {
+                    extra_positions.push((i as u32, utf16_col(l, pos + 1)));
+                    // on the function name of a call statement `fN()` (hover shows the docstring of the def)
+                    let t = l.trim_start();
+                    if t.starts_with('f') && t.ends_with("()") {
+                        extra_positions.push((i as u32, utf16_col(l, l.len() - t.len()) + 1));
+                    }
+                }
+            }
+        }
+        let nl_ = lines.len() as u32;
+        extra_positions.push((ch.below(nl_.max(1)), ch.below(80)));
+        extra_positions.push((nl_ + 1, 0));
+        for (l, col) in extra_positions {
+            for kind in ["completion", "hover"] {
+                let resp = if kind == "completion" { c.completion("doc.star", l, col) } else { c.hover("doc.star", l, col) };
+                let resp = match resp {
+                    Ok(j) => j,
+                    Err(e) => {
+                        println!("INCONCLUSIVE lsp: {e}");
+                        return r;
+                    }
+                };
+                r.evals += 1;
+                r.label(if kind == "completion" { "completion_request" } else { "hover_request" });
+                let mut ranges = Vec::new();
+                collect_ranges(&resp["result"], &mut ranges);
+                if !ranges.is_empty() {
+                    r.label(if kind == "completion" { "completion_with_edit_range" } else { "hover_with_range" });
+                }
+                for range in ranges {
+                    let mut rp = Vec::new();
+                    check_range(&text, &range, kind, &mut rp);
+                    let before_non_ascii = lines.get(l as usize).map(|s| {
+                        let mut n16 = 0u32;
+                        let mut non_ascii = false;
+                        for ch_ in s.chars() {
+                            if n16 >= col { break; }
+                            n16 += ch_.len_utf16() as u32;
+                            non_ascii |= !ch_.is_ascii();
+                        }
+                        non_ascii
+                    }).unwrap_or(false);
+                    for p in rp {
+                        let class = if any_astral { "lsp-range-char-columns" } else if before_non_ascii { "lsp-cursor-column-non-ascii" } else { "invalid-range" };
+                        probs.push((class.into(), format!("{kind} at {l}:{col}: {p}")));
+                    }
+                }
+            }
+        }
         // other positions: must be answered, ranges valid
         let nlines = lines.len() as u32;
         let grid: Vec<(u32, u32)> = vec![(0, 0), (0, 10_000), (nlines, 0), (nlines + 5, 3), (ch.below(nlines.max(1)), ch.below(60)), (ch.below(nlines.max(1)), ch.below(60)), (ch.below(nlines.max(1)), ch.below(60))];
@@ -628,11 +911,11 @@ impl Prop for C19 {
         }
         // history: change to another document, then to unparsable text, then close
         c.change("doc.star", &text2);
-        if let Some(u) = doc2.uses.first() {
+        if let Some(u) = doc2.uses.iter().find(|u| !doc2.loaded.iter().any(|l| l.0 == u.name)) {
             let col16 = utf16_col(&doc2.lines[u.line], u.byte_col);
             if let Ok(resp) = c.definition("doc.star", u.line as u32, col16) {
                 r.evals += 1;
-                if let Some(loc) = resp["result"].as_array().and_then(|a| a.first()) {
+                if let Some(loc) = resp["result"].as_array().and_then(|a| a.first()).filter(|loc| loc.get("targetUri").or(loc.get("uri")).and_then(|u| u.as_str()) == Some(Client::uri("doc.star").as_str())) {
                     let range = if loc.get("targetUri").is_some() { &loc["targetSelectionRange"] } else { &loc["range"] };
                     let mut rp = Vec::new();
                     check_range(&text2, range, "definition range after didChange", &mut rp);
@@ -679,6 +962,8 @@ impl Prop for C19 {
         if !c.shutdown() {
             probs.push(("server-did-not-stop".into(), "the server thread did not end (or panicked) after shutdown/exit".into()));
         }
+        check_tree_and_runtime_spans(&text, &mut r);
+        check_runtime_error_positions(&text, lib_frozen.as_ref(), &mut r);
         check_resolved_spans(&broken, &mut r);
         check_resolved_spans(&format!("{text}x = \"é😀\" + )\n"), &mut r);
         for (c, m) in probs {
